@@ -12,8 +12,9 @@ from harness import c11_lib, c11_check, ops_common as oc
 PROP = 'C11'
 MODEL_MODULES = ['TenpyModel.Util.J', 'TenpyModel.Ops.Sym', 'TenpyModel.Ops.Terms', 'TenpyModel.Ops.Graph',
                  'TenpyModel.Ops.MPO']
-PROPS_MODULES = ['TenpyModel.C11.Props']
-LEAN_MODULES = ['TenpyModel.C11.Props']
+PROPS_MODULES = ['TenpyModel.C11.Props',
+                 'TenpyModel.C11.Props2']
+LEAN_MODULES = PROPS_MODULES
 LEVEL = 'proof'
 BUDGET = {'quick': 200, 'thorough': 1500}
 RULE = ('finite and infinite MPOs (a) from random W tensors over matrix units (d = 2, 3; bond dimensions 1-5; with IdL/IdR '
